@@ -630,7 +630,7 @@ func helperKey(f *ssa.Function) string {
 			k += n.Obj().Name() + "."
 		}
 	}
-	return k + f.Name()
+	return k + canonName(f)
 }
 
 // roleAnchors: functions resolved by role during this run (the shared block-loop decoder, the dataset's sort
